@@ -16,6 +16,16 @@ def writeAll (accept : Nat → Nat) : Nat → List Byte → Nat → List (List B
     let n := min (accept k + 1) buf.length
     buf.take n :: writeAll accept fuel (buf.drop n) (k + 1)
 
+/-- The suspension points of the write-all loop: its only `await` is the socket write itself, so the future can be
+    dropped exactly when it is parked in one of them; listed is how many bytes of the buffer the kernel had taken
+    before each write call (`done` so far). -/
+def cutsBefore (accept : Nat → Nat) : Nat → List Byte → Nat → Nat → List Nat
+  | 0, _, _, _ => []
+  | fuel+1, buf, k, done =>
+    if buf = [] then [] else
+    let n := min (accept k + 1) buf.length
+    done :: cutsBefore accept fuel (buf.drop n) (k + 1) (done + n)
+
 /-- what reaches the pipe when the write future is dropped after `cut` bytes were accepted -/
 def writeCancelled (buf : List Byte) (cut : Nat) : List Byte := buf.take cut
 
